@@ -557,6 +557,17 @@ class Printer:
             self.fire('call:identity-accessor')
             return self.e(o)
         fn = self.callmap.get('%s::%s' % (cls, m), '%s__%s' % (mangle(cls), m))
+        if ('%s::%s' % (cls, m)) not in self.callmap and self.unit.get('strict_calls', True) and self.fragment:
+            self.brk('method call %s::%s not in the unit callmap' % (cls, m), n)
+        byaddr = False
+        if fn.startswith('&'):
+            # model function that takes its operands by address (stream.Sync(x) reads or writes x)
+            byaddr = True
+            fn = fn[1:]
+        if fn.endswith('*'):
+            if not args:
+                self.brk('type-suffixed callmap entry without argument', n)
+            fn = fn[:-1] + mangle(self.ctype_of(self.skip(args[0])))
         self.called[fn] += 1
         self.fire('call:method')
         if o.get('kind') == 'CXXThisExpr':
@@ -569,9 +580,22 @@ class Printer:
                 objs = 'self'
             elif me.get('isArrow'):
                 objs = self.e(o)
+            elif b.get('kind') in ('CXXMemberCallExpr', 'CallExpr'):
+                # object is the result of a call returning a reference: the model function returns a pointer
+                self.fire('call:object-from-call')
+                objs = self.e(o)
             else:
                 objs = '&' + self.e(o)
-        al = [objs] + [self.arg(a) for a in args]
+        if byaddr:
+            al = [objs]
+            for a in args:
+                a0 = self.skip(a)
+                if a0.get('valueCategory') == 'lvalue':
+                    al.append('&' + self.e(a0))
+                else:
+                    al.append(self.e(a0))
+        else:
+            al = [objs] + [self.arg(a) for a in args]
         return '%s(%s)' % (fn, ', '.join(al))
 
     def class_of(self, o, me=None):
@@ -957,6 +981,10 @@ def find_function(docs, unit):
                     continue
                 if not any(c.get('kind') == 'CompoundStmt' for c in n.get('inner', []) or []):
                     continue
+                if unit.get('targs'):
+                    ta = [c.get('type', {}).get('qualType') for c in n.get('inner', []) if c.get('kind') == 'TemplateArgument']
+                    if ta != [x.strip() for x in unit['targs'].split(',')]:
+                        continue
                 found.append(n)
     if cls:
         # class membership cannot be read off a detached out-of-line definition; the dump filter carries it
